@@ -30,7 +30,7 @@ def gen_pool(seed: int, idx: int) -> dict:
         if j > 0 and rng.random() < 0.45:
             # a sibling of an earlier text: same header, small semantic edits
             src = rng.randrange(len(texts))
-            texts.append(gen.variant(rng, texts[src]))
+            texts.append(gen.variant(rng, texts[src], "calendar" if rng.random() < 0.4 else None))
             kinds.append("variant-of-%d" % src)
             clocky.append(clocky[src])
             continue
